@@ -35,10 +35,26 @@ func C09_upgrade_template() {
 	scenario := vChoose("scenario", 2) // 0: perturbed request, no objecting callback; 1: compliant request, callbacks
 	perturb := 0
 	if scenario == 0 {
-		perturb = 1 + vChoose("perturb", 8)
+		perturb = 1 + vChoose("perturb", 9)
 	}
+	target := []byte("/chat?x=1")
 	switch perturb {
 	case 0: // nothing
+	case 9: // the request target: other forms, or two arbitrary bytes (the callback sees it as sent)
+		switch vChoose("target", 4) {
+		case 0:
+			target = []byte("/")
+		case 1:
+			target = []byte("http://example.com/chat?a=b&c=%20")
+		case 2:
+			target = []byte("*")
+		case 3:
+			t := vBytes("target", 2)
+			for _, c := range t {
+				vAssume(vAnd(c != ' ', vAnd(c != '\r', c != '\n')))
+			}
+			target = append([]byte("/"), t...)
+		}
 	case 1: // method: three arbitrary bytes
 		method = vBytes("method", 3)
 		for _, c := range method {
@@ -245,7 +261,9 @@ func C09_upgrade_template() {
 	// assemble
 	var req []byte
 	req = append(req, method...)
-	req = append(req, " /chat?x=1 "...)
+	req = append(req, ' ')
+	req = append(req, target...)
+	req = append(req, ' ')
 	req = append(req, version...)
 	req = append(req, eol...)
 	lines := [][]byte{hostLine, upgradeLine, connLine, verLine, keyLine}
@@ -305,7 +323,7 @@ func C09_upgrade_template() {
 		x1, _ := r.get("X-Extra")
 		x2, _ := r.get("X-Before")
 		vAssert(vAnd(x1 == "1", x2 == "yes"), "upgrade.caller_headers_present")
-		vAssert(vAnd(len(r.body) == 0, string(sawURI) == "/chat?x=1"), "upgrade.no_body_and_uri_seen")
+		vAssert(vAnd(len(r.body) == 0, vEqBytes(sawURI, target)), "upgrade.no_body_and_uri_seen")
 		_ = sawHost
 		return
 	}
